@@ -76,6 +76,9 @@ type Program struct {
 	// Strict: every hook and store point is held and released one at a time in
 	// the order of Script (TLC behaviour replay).
 	Script []string `json:"script,omitempty"`
+	// BPBound, when set, is the number of accepted-but-unanswered batches the program's own shape allows at a quiescent
+	// point (ingest buffer + what the flush requests in flight, queued and being handed over can carry + one).
+	BPBound int `json:"bp_bound,omitempty"`
 }
 
 type Result struct {
@@ -854,7 +857,7 @@ func Run(p *Program, tr *h.Tracer, traceID int64, scratch string) Result {
 		v int
 	}{{"ibs", cfg.IngestBufferSize}, {"mb_rows", cfg.MaxBufferedRows}, {"mb_bytes", cfg.MaxBufferedBytes},
 		{"mrg_rows", cfg.MaxRowGroupRows}, {"mrg_bytes", cfg.MaxRowGroupBytes},
-		{"mb_time_ms", int(cfg.MaxBufferedTime / time.Millisecond)}, {"timed", boolInt(p.Clock)}, {"seqmode", seqmode}, {"fs", boolInt(p.Cfg.FS)}} {
+		{"mb_time_ms", int(cfg.MaxBufferedTime / time.Millisecond)}, {"timed", boolInt(p.Clock)}, {"seqmode", seqmode}, {"fs", boolInt(p.Cfg.FS)}, {"bp_bound", p.BPBound}} {
 		v := lv.v
 		if v > 1<<30 {
 			v = 1 << 30
